@@ -82,3 +82,9 @@ def slice_points(h, curve, positions, nn=True):
 # 12-point monotone curve on which lmethod.knee(it=Refinement.original) alternates between the prefixes of 11 and 12 points
 # (knee, cutoff) = (6,12) <-> (5,10); found once by a random search, used as the base of an inline slice (C09)
 LM_CYCLE = _f([[1, '9.09'], [3, '7.89'], [5, '7.68'], [8, '7.58'], [9, '6.67'], [10, '6.47'], [12, '5.65'], [15, '3.85'], [17, '3.39'], [18, '1.84'], [19, '1.29'], [21, '0.57']])
+
+# periodic integer motif (2,5,2,8) x 3: congruent non-sibling segments have exactly equal ordering scores (tie-break order of the work stack matters)
+ZIGZAG = _f([[i + 1, v] for i, v in enumerate([2, 5, 2, 8] * 3 + [2])])
+# 7-point integer curve on which two non-sibling pending segments have exactly equal ordering scores (found by a one-off random comparison of two
+# tie-break rules; used as the base of an inline slice so that tie-break changes in the work stack have a concrete witness)
+TIE7 = _f([[0, 0], [1, 0], [2, 2], [3, 1], [4, 4], [5, 3], [6, 0]])
